@@ -70,3 +70,9 @@ func ZZ_C16_stat_reweight_fields() {
 	zzvAssert("count-and-sums-scaled", zzvAnd(zzvSameBits(s.count, pre.count*f), zzvAnd(zzvSameBits(s.sum, pre.sum*f), zzvAnd(zzvSameBits(s.sumCompensation, pre.sumCompensation*f), zzvSameBits(s.simpleSum, pre.simpleSum*f)))))
 	zzvAssert("extremes-untouched", zzvAnd(zzvSameBits(s.min, pre.min), zzvSameBits(s.max, pre.max)))
 }
+
+func ZZ_C10_stat_reweight_fields() { ZZ_C16_stat_reweight_fields() }
+
+// exported for the sketch-level harnesses
+func ZZArbitrary(tag string) *SummaryStatistics { return zzArbitrary(tag) }
+func ZZSameStat(a, b *SummaryStatistics) bool  { return zzSameStat(a, b) }
